@@ -83,7 +83,7 @@ pub fn replay(v: &Value) -> Outcome {
 }
 
 pub fn run(env: &Env, known: &Known, started: Instant, replayed: u64, replay_violations: Vec<Violation>) -> i32 {
-    let cfg = ChoiceRun { env, pid: PID, part: "bodies", cases: env.tier.pick(10_000, 400_000), max_len: 3000, known };
+    let cfg = ChoiceRun { env, pid: PID, part: "bodies", cases: env.tier.pick(50_000, 400_000), max_len: 3000, known };
     let rr = run_choices(&cfg, run_case);
     let ev = Evidence {
         env, pid: PID, level: "exploration",
